@@ -521,6 +521,243 @@ def _replay_dec(w):
     return got, {'decimal': dtext, 'to_xml': out}
 
 
+# =============================================================================================== durations (pysym, z3 Int)
+
+ENGINE_DUR = 'pysym(z3 Int/Real)'
+DUR_STUBS = ['datetime.timedelta(seconds=x) -> days D, seconds 0 <= S < 86400, microseconds 0 <= U < 10^6 with '
+             'D*86400e6 + S*1e6 + U == x*10^6 rounded half-even to an integer (documented timedelta resolution); float(x) exact',
+             'io.StringIO -> list of written pieces; f-string pieces str(int) are compared by value',
+             'str(n).zfill(6).rstrip("0") denotes the fraction n / 10^6 for 0 < n < 10^6 (asserted on every path that writes it)']
+DUR_LABELS = ['duration_not_in_sdpi_grammar', 'duration_value_changed', 'duration_not_normalised']
+
+
+class _BufRef:
+    pytype = 'StringIO'
+
+    def __init__(self, key):
+        self.key = key
+
+    def m_write(self, sym, st, x):
+        st.trace.append((self.key, x))
+
+    def m_getvalue(self, sym, st):
+        return _BufVal([x for k, x in st.trace if k == self.key])
+
+
+class _BufVal:
+    pytype = 'str'
+
+    def __init__(self, parts):
+        from vf import pysym
+        flat = []
+        for x in parts:
+            flat.extend(x.parts if isinstance(x, pysym.Pieces) else [x])
+        self.parts = []
+        for x in flat:                       # adjacent constant strings are one token
+            if isinstance(x, str) and self.parts and isinstance(self.parts[-1], str):
+                self.parts[-1] += x
+            elif x != '':
+                self.parts.append(x)
+
+    def sym_eq(self, sym, other):
+        if isinstance(other, str):
+            return self.parts == [other]
+        from vf.pysym import Unsupported
+        raise Unsupported('buffer compared with ' + type(other).__name__)
+
+
+def _dur_tokens(ret):
+    """Split the produced text into characters of constant pieces and symbolic pieces."""
+    if isinstance(ret, str):
+        return list(ret)
+    toks = []
+    for x in ret.parts:
+        toks.extend(list(x) if isinstance(x, str) else [x])
+    return toks
+
+
+def _dur_parse(toks):
+    """PT(<int>H)?(<int>M)?((<int>)(.<frac>)?S)? over tokens; -> dict(h, m, s, frac) of terms/ints or None if not in the grammar.
+    A run of constant digit characters is an integer constant; a symbolic DecStr is an integer term."""
+    from vf import pysym
+    if toks[:2] != ['P', 'T']:
+        return None
+    pos, out = 2, {'h': 0, 'm': 0, 's': 0, 'frac': None}
+
+    def number(p):
+        if p < len(toks) and isinstance(toks[p], pysym.DecStr):
+            return toks[p].term, p + 1
+        q = p
+        while q < len(toks) and isinstance(toks[q], str) and toks[q].isdigit():
+            q += 1
+        return (int(''.join(toks[p:q])), q) if q > p else (None, p)
+    for unit in ('H', 'M'):
+        v, q = number(pos)
+        if v is not None and q < len(toks) and toks[q] == unit:
+            out[unit.lower()], pos = v, q + 1
+    v, q = number(pos)
+    if v is not None:
+        out['s'], pos = v, q
+        if pos < len(toks) and toks[pos] == '.':
+            if pos + 1 < len(toks) and isinstance(toks[pos + 1], pysym.PaddedDigits):
+                out['frac'], pos = toks[pos + 1], pos + 2
+            else:
+                return None
+        if pos >= len(toks) or toks[pos] != 'S':
+            return None
+        pos += 1
+    if pos != len(toks) or len(toks) == 2:          # trailing garbage, or a bare 'PT'
+        return None
+    return out
+
+
+def _dur_encode():
+    import z3
+    from sdc11073.xml_types import isoduration
+    from vf import pysym
+    be = pysym.Z3Real()
+    x = z3.Real('x')
+    info = {}
+
+    def timedelta(sym, st, args, kw):
+        if args or set(kw) != {'seconds'}:
+            raise pysym.Unsupported('timedelta arguments')
+        D, S, U = sym.new('td_days', 'int'), sym.new('td_seconds', 'int'), sym.new('td_us', 'int')
+        total = D * 86_400_000_000 + S * 1_000_000 + U
+        q = be.round_half_even(sym, st, kw['seconds'], 6)
+        st.assumes += [S >= 0, S < 86400, U >= 0, U < 1_000_000, total == q]
+        return pysym.Record('timedelta', days=D, seconds=S, microseconds=U)
+
+    counter = [0]
+
+    def stringio(sym, st, args, kw):
+        counter[0] += 1
+        return _BufRef(counter[0])
+    sym = pysym.Sym(isoduration.duration_string, be, stubs={'datetime.timedelta': timedelta, 'io.StringIO': stringio}, unroll=4)
+    paths = sym.run({'seconds': x})
+    # the oracle's own microsecond count of x (same documented rounding), independent of whether/how the code called timedelta
+    ost = pysym.State()
+    info['total'] = be.round_half_even(sym, ost, x, 6)
+    info['oracle_assumes'] = ost.assumes
+    return be, x, sym, paths, info
+
+
+def _dur_real(xf):
+    """REAL duration_string on a float; parsed by an independent regular expression; compared with timedelta's microseconds."""
+    import datetime
+    import re
+    from sdc11073.xml_types import isoduration
+    text = isoduration.duration_string(xf)
+    td = datetime.timedelta(seconds=xf)
+    total = td.days * 86_400_000_000 + td.seconds * 1_000_000 + td.microseconds
+    m = re.fullmatch(r'PT(?:(\d+)H)?(?:(\d+)M)?(?:(\d+)(?:\.(\d+))?S)?', text)
+    viol = []
+    if m is None or text == 'PT':
+        return text, ['duration_not_in_sdpi_grammar']
+    h, mi, sec, frac = m.groups()
+    val = Fraction(int(h or 0) * 3600 + int(mi or 0) * 60 + int(sec or 0)) + (Fraction(int(frac), 10 ** len(frac)) if frac else 0)
+    if val * 1_000_000 != total:
+        viol.append('duration_value_changed')
+    if int(mi or 0) >= 60 or int(sec or 0) >= 60:
+        viol.append('duration_not_normalised')
+    return text, viol
+
+
+def ob_dur(ctx):
+    import z3
+    from vf import pysym
+    try:
+        be, x, sym, paths, info = _dur_encode()
+    except pysym.Unsupported as ex:
+        return {'verdict': 'inconclusive', 'reason': f'translation failed: {ex}', 'engine': ENGINE_DUR}
+    if sym.unwind:
+        return {'verdict': 'inconclusive', 'reason': 'loop in duration_string', 'engine': ENGINE_DUR}
+    # translator validation: for concrete x exactly one path is enabled and its text equals the real output
+    rng = _random.Random(4000 + (ctx.seed or 0))
+    samples = [0.0, 1.0, 59.999999, 60.0, 3600.0, 3661.5, 0.000001, 0.0000004, 86400.0, 90061.000001, 1e9 + 0.25]
+    samples += [round(rng.random() * 10 ** rng.randrange(-3, 8), rng.randrange(0, 7)) for _ in range(40)]
+    for xf in samples:
+        hits = []
+        for p in paths:
+            r, m = be.check(p.conds + p.assumes + [x == be.val(Fraction(xf))], 10000)
+            if r == 'sat':
+                hits.append((p, m))
+        if len(hits) != 1:
+            return {'verdict': 'error', 'reason': f'validation: {len(hits)} paths enabled for x={xf!r}', 'engine': ENGINE_DUR}
+        p, m = hits[0]
+        text = ''
+        for t in _dur_tokens(p.ret):
+            if isinstance(t, str):
+                text += t
+            elif isinstance(t, pysym.DecStr):
+                text += str(be.model_value(m, t.term))
+            elif isinstance(t, pysym.PaddedDigits):
+                d = str(be.model_value(m, t.term)).zfill(t.width)
+                text += d.rstrip('0') if t.rstripped else d
+            else:
+                return {'verdict': 'error', 'reason': f'validation: unexpected piece {type(t).__name__}', 'engine': ENGINE_DUR}
+        if text != _dur_real(xf)[0]:
+            return {'verdict': 'error', 'reason': f'validation: encoding gives {text!r}, real duration_string({xf!r}) gives {_dur_real(xf)[0]!r}',
+                    'engine': ENGINE_DUR}
+    reach, npaths = False, 0
+    for p in paths:
+        if isinstance(p.ret, pysym.Record) and p.ret.kind == 'raised':
+            # the only exception: negative durations
+            r, _ = be.check(p.conds + p.assumes + [x >= 0])
+            if r != 'unsat':
+                return {'verdict': 'inconclusive', 'reason': 'an exception path is reachable for x >= 0', 'engine': ENGINE_DUR}
+            continue
+        base = p.conds + p.assumes + [x >= 0] + info['oracle_assumes']
+        r, m0 = be.check(base)
+        if r == 'unknown':
+            return {'verdict': 'inconclusive', 'reason': 'solver unknown', 'engine': ENGINE_DUR}
+        if r == 'unsat':
+            continue
+        reach = True
+        npaths += 1
+        total = info.get('total')
+        parsed = _dur_parse(_dur_tokens(p.ret))
+        holds = {}
+        if parsed is None:
+            holds['duration_not_in_sdpi_grammar'] = z3.BoolVal(False)
+        else:
+            us, frac_ok = 0, z3.BoolVal(True)
+            if parsed['frac'] is not None:
+                f = parsed['frac']              # str(n).zfill(w)[.rstrip('0')]: w digits denoting n / 10^w, provided 0 < n < 10^w
+                if f.width > 6:
+                    return {'verdict': 'inconclusive', 'reason': 'fraction wider than microseconds', 'engine': ENGINE_DUR}
+                holds['duration_not_in_sdpi_grammar'] = (f.term >= 1) if f.rstripped else z3.BoolVal(True)   # '.S' otherwise
+                frac_ok = f.term < 10 ** f.width
+                us = f.term * 10 ** (6 - f.width)
+            val = be.val(parsed['h']) * 3_600_000_000 + be.val(parsed['m']) * 60_000_000 + be.val(parsed['s']) * 1_000_000 + us
+            holds['duration_value_changed'] = z3.And(frac_ok, val == total)
+            holds['duration_not_normalised'] = z3.And(be.val(parsed['m']) < 60, be.val(parsed['s']) < 60, be.val(parsed['h']) >= 0,
+                                                      be.val(parsed['m']) >= 0, be.val(parsed['s']) >= 0)
+        base = base + [h for lab, h in holds.items() if lab in ctx.exclude]
+        for lab in DUR_LABELS:
+            if lab not in holds or lab in ctx.exclude:
+                continue
+            r, m = be.check(base + [z3.Not(holds[lab])])
+            if r == 'unknown':
+                return {'verdict': 'inconclusive', 'reason': f'solver unknown ({lab})', 'engine': ENGINE_DUR}
+            if r == 'sat':
+                xv = be.model_value(m, x)
+                xf = float(xv)
+                text, got = _dur_real(xf)
+                wit = {'kind': 'dur', 'label': lab, 'seconds': xf.hex(), 'seconds_repr': repr(xf), 'real_text': text}
+                return {'verdict': 'counterexample', 'label': lab, 'witness': wit, 'replayed': lab in got, 'reach': True,
+                        'detail': f'duration_string({xf!r}) == {text!r}; violated: {got}', 'engine': ENGINE_DUR, 'queries': be.queries}
+    return {'verdict': 'confirmed' if reach else 'inconclusive', 'reach': reach, 'queries': be.queries, 'solver_s': round(be.solver_s, 2),
+            'engine': ENGINE_DUR, 'detail': f'{npaths} reachable paths of duration_string; every one writes PT(nH)?(nM)?(n(.f)?S)? whose value '
+                                            f'equals timedelta\'s microsecond count; validated on {len(samples)} concrete durations'}
+
+
+def _replay_dur(w):
+    xf = float.fromhex(w['seconds'])
+    text, got = _dur_real(xf)
+    return got, {'seconds': xf, 'duration_string': text}
+
+
 # =============================================================================================== replay entry point
 
 def replay(ctx):
@@ -530,6 +767,8 @@ def replay(ctx):
         got, shown = _replay_ts(w)
     elif kind == 'dec':
         got, shown = _replay_dec(w)
+    elif kind == 'dur':
+        got, shown = _replay_dur(w)
     else:
         return {'verdict': 'error', 'label': 'unknown-witness-kind', 'reason': str(w)[:200]}
     lab = w.get('label')
@@ -558,11 +797,12 @@ META = {
                 'run in the CrossHair digit-run obligations, for the digit patterns D^a . 0^b D^c 0^d only)',
                 'DecimalConverter.to_py: decimal.Decimal is a C type - texts are enumerated by selector from a 14-character pool, '
                 'length <= 3 (quick) / 4 (thorough), not symbolic strings',
-                'durations and date/time values (isoduration.parse_duration, duration_string, parse_date_time, XsdDateInformation.__str__): '
-                're, datetime.timedelta, float(str) and io.StringIO are C code that CrossHair concretises and pysym cannot translate; '
-                'the hypothesis tests in tests/test_isoduration.py cover them by sampling - no solver claim is made here',
+                'durations: only duration_string (the divmod decomposition and the formatting, with timedelta as a stub) is decided; '
+                'parse_duration and the date/time functions (parse_date_time, XsdDateInformation.__str__) depend on re, '
+                'datetime.timedelta and float(str) - C code that CrossHair concretises and pysym cannot translate; the hypothesis tests '
+                'in tests/test_isoduration.py cover them by sampling - no solver claim is made here',
                 'boolean/enum: strings longer than 5 characters; integer: texts outside the 13-character pool or longer than 3 (quick) / 4 (thorough) characters'],
-    'assumptions': TS_STUBS + DEC_STUBS,
+    'assumptions': TS_STUBS + DEC_STUBS + DUR_STUBS,
 }
 
 CH_STUB = ['XSD whiteSpace=collapse: leading/trailing XML whitespace (space, tab, CR, LF) is not part of the literal']
@@ -597,6 +837,10 @@ def obligations(tier):
                              'of 1..18 digits x every exponent in [-18, 18] with at most 18 total digits; coefficient symbolic, '
                              f'{len(_dec_cases(group))} (digits, exponent) cases',
                       claim='to_xml(d) is positional notation with exactly the value of d'))
+    obs.append(Ob('C18.dur.duration_string', 'checks.C18', 'ob_dur', kind='py', timeout=100 if quick else 300, functions=F_DUR, stubs=DUR_STUBS,
+                  bounds='every real duration x >= 0 (unbounded; timedelta\'s own range limit not modelled)',
+                  claim='duration_string(x) raises only for x < 0; the text is in the SDPi grammar PT(nH)?(nM)?(n(.f)?S)?, minutes and '
+                        'seconds below 60, and denotes exactly x rounded to microseconds'))
     tc = 60 if quick else 300
     maxn = 3 if quick else 4
     obs += [
@@ -607,7 +851,7 @@ def obligations(tier):
            claim='IntegerConverter.to_py(text) returns => text is an xsd:integer literal, the result is its value, to_xml gives a literal '
                  'of that value; literals are accepted'),
         Ob('C18.lex.boolean', 'harness.C18', 'boolean_lex', timeout=tc, functions=F_LEX[2:4], stubs=CH_STUB[:1],
-           bounds='fully symbolic str, <= 5 characters',
+           bounds='fully symbolic str, <= 5 characters; plus 15 fixed spellings (case variants, padded literals) chosen by selector',
            claim='BooleanConverter.to_py(s) returns => s is one of true/false/1/0 and the result is its value; to_xml gives it back; '
                  'literals are accepted'),
         Ob('C18.lex.enum', 'harness.C18', 'enum_lex', timeout=tc, functions=F_LEX[4:6],
@@ -642,9 +886,10 @@ MANIFEST_ENTRY = {
     'text': 'Timestamps: for every binade of [0, 2^53/1000] the failure condition (XML->Py->XML changed; |Py->XML->Py drift| >= 1 ms, '
             'exact) is shown unsatisfiable in the rounding model or by the exact encoding; models are replayed on the real converter. '
             'Decimals: for each of 990 (sign, digits, exponent) cases the value of to_xml(d) equals d for every coefficient (z3 unsat), '
-            'and no exponent notation is produced. Lexical spaces: every path of the converters on a symbolic str of <= 5 characters is '
+            'and no exponent notation is produced. duration_string: every path writes a text of the SDPi grammar whose value is the '
+            'microsecond count of the argument (z3, all x >= 0). Lexical spaces: every path of the converters on a symbolic str of <= 5 characters is '
             'explored to exhaustion by CrossHair.',
     'note': 'Trusted: z3, cvc5, the pysym translator (validated on every run against the real functions on 200 inputs per timestamp '
-            'obligation / 3 Decimals per case), the stated stubs for Decimal.__str__/float()/format(). Durations and date-times are '
-            'outside the claim (C code: re, datetime, float(str)).',
+            'obligation / 3 Decimals per case / 51 durations), the stated stubs for Decimal.__str__/float()/format()/timedelta. '
+            'parse_duration and date-times are outside the claim (C code: re, datetime, float(str)).',
 }
